@@ -28,6 +28,7 @@ pub mod kzg10 {
 //@struct file=poly-commit/src/kzg10/data_structures.rs name=Proof
 //@spec kzg10_check_spec kzg10_commit_spec
     impl Randomness {
+        #[verifier::external_body] pub fn clone(&self) -> (r: Randomness) ensures r == *self { unimplemented!() }   // #[derive(Clone)]: an equal value   [assumed]
 //@stub from=kzg10.rs id=kzg10.Randomness.rand
 //@stub from=kzg10.rs id=kzg10.Randomness.empty
 //@fn id=kzg10.Randomness.add_assign_scaled file=poly-commit/src/kzg10/data_structures.rs scope="impl<'a, F: PrimeField, P: DenseUVPolynomial<F>> AddAssign<\(F, &'a Randomness<F, P>\)>\s+for Randomness<F, P>" name=add_assign props=C08,C01
